@@ -56,6 +56,15 @@ def build(case):
         g = G.ControlledGate(t, len(case["cs"]), cs)
         g.set_control(qs[:len(case["cs"])])
         return g
+    if k == "mplx-sameobj":
+        # ONE gate object used for several control values (slots `same`), other objects elsewhere: block k is still the k-th target
+        qs = c["qubits"]
+        shared_g = G.IdentityGate(qs[7]) if case["shared"] == "id" else G.RyGate(0.9, qs[7])
+        others = iter([G.RyGate(0.7, qs[7]), G.SGate(qs[7]), G.HadamardGate(qs[7]), G.RzGate(-0.4, qs[7])])
+        ts = [shared_g if i in case["same"] else next(others) for i in range(2 ** case["nc"])]
+        g = G.MultiplexedGate(ts, case["nc"])
+        g.set_control(qs[:case["nc"]])
+        return g
     if k == "mplx-near":
         # different targets that the library's own `==` (np.allclose) calls equal: block k must still be the k-th target
         qs = c["qubits"]
@@ -114,6 +123,21 @@ INVALID_UNITARIES = {
 
 
 def impl(case):
+    if case.get("kind") == "block-boundary":
+        # ||H|| = 1: sqrtm(1 - H^2) is singular there and accurate to ~1e-8 only, so this edge is checked by the oracle alone, with
+        # tolerance 1e-6 (finite, unitary, top-left block = H, inverse() inverts); no exact model comparison
+        c = ctx(); qib, G = c["qib"], c["G"]
+        rng = random.Random(1000 + case["seed"])
+        L = case["nsites"]
+        f = qib.field.Field(qib.field.ParticleType.QUBIT, qib.lattice.IntegerLattice((L,), pbc=False))
+        J, h, g_ = rng.uniform(-1, 1), rng.uniform(-1, 1), rng.uniform(-1, 1)
+        H0 = qib.operator.IsingHamiltonian(f, J, h, g_)
+        nrm = np.linalg.norm(H0.as_matrix().toarray(), ord=2)
+        H = qib.operator.IsingHamiltonian(f, J / nrm, h / nrm, g_ / nrm)
+        gate = G.BlockEncodingGate(H, getattr(G.BlockEncodingMethod, case["method"]))
+        m = np.asarray(gate.as_matrix(), dtype=complex)
+        mi = np.asarray(gate.inverse().as_matrix(), dtype=complex)
+        return {"boundary": True, "_mb": m, "_mib": mi, "_hb": H.as_matrix().toarray(), "herm": bool(gate.is_hermitian()), "desc": f"BlockEncoding[{case['method']}](Ising/||Ising||, {L} sites)"}
     if case.get("kind") == "general-invalid":
         # the constructor must refuse a matrix that is not unitary (also one with non-finite entries); if it accepts, the claims are checked
         G = ctx()["G"]
@@ -162,7 +186,7 @@ def close(a, b, tol=1e-12):
 
 
 def compare(case, o, m, what=("mat", "inv", "herm", "wires")):
-    if case.get("kind") == "general-invalid":
+    if case.get("kind") in ("general-invalid", "block-boundary"):
         return None
     if "harness_exception" in o:
         return "harness exception: " + o["harness_exception"]
@@ -188,7 +212,30 @@ def compare(case, o, m, what=("mat", "inv", "herm", "wires")):
 # direct oracles (property on the implementation only)
 # ---------------------------------------------------------------------------------------------
 
+def _boundary_findings(pid, case, o):
+    """block encoding of an operator of norm exactly 1 (tolerance 1e-6, see impl)"""
+    if not o.get("boundary"):
+        return []
+    m, mi, h = o["_mb"], o["_mib"], o["_hb"]
+    d = len(h)
+    if not (np.all(np.isfinite(m)) and np.all(np.isfinite(mi))):
+        return [(f"{pid}:block-encoding-at-norm-1:non-finite:{case['method']}", f"{o['desc']}: matrix (or its inverse) contains NaN/Inf")]
+    bad = []
+    tol = 1e-6
+    if pid == "C01" and (m.shape != (2 * d, 2 * d) or np.max(np.abs(m @ m.conj().T - np.identity(2 * d))) > tol):
+        bad.append((f"C01:block-encoding-at-norm-1:non-unitary:{case['method']}", f"{o['desc']}: |U U^dagger - 1| = {np.max(np.abs(m @ m.conj().T - np.identity(2 * d))):.3e}"))
+    if pid == "C02" and np.max(np.abs(m[:d, :d] - h)) > tol:
+        bad.append((f"C02:block-encoding-at-norm-1:top-left:{case['method']}", f"{o['desc']}: top-left block is not the encoded operator"))
+    if pid == "C03" and np.max(np.abs(mi @ m - np.identity(2 * d))) > tol:
+        bad.append((f"C03:block-encoding-at-norm-1:inverse:{case['method']}", f"{o['desc']}: inverse().as_matrix() @ as_matrix() != 1"))
+    if pid == "C16" and o["herm"] and np.max(np.abs(m - m.conj().T)) > tol:
+        bad.append((f"C16:block-encoding-at-norm-1:unsound-flag:{case['method']}", f"{o['desc']}: is_hermitian() True but M != M^dagger"))
+    return bad
+
+
 def oracle_c01(case, o):
+    if case.get("kind") == "block-boundary":
+        return _boundary_findings("C01", case, o)
     if case.get("kind") == "general-invalid":
         if o.get("rejected") is False:
             return [(f"C01:general-gate-accepts-non-unitary:{case['what']}", f"GeneralGate accepted a matrix that is not unitary ({case['what']}); "
@@ -274,6 +321,8 @@ def reference_matrix(g):
 
 
 def oracle_c02(case, o):
+    if case.get("kind") == "block-boundary":
+        return _boundary_findings("C02", case, o)
     if case.get("kind") == "general-invalid":
         return []
     if "harness_exception" in o:
@@ -300,6 +349,8 @@ def oracle_c02(case, o):
 
 
 def oracle_c03(case, o):
+    if case.get("kind") == "block-boundary":
+        return _boundary_findings("C03", case, o)
     if case.get("kind") == "general-invalid":
         return []
     if "inverse_raised" in o:
@@ -316,6 +367,8 @@ def oracle_c03(case, o):
 
 
 def oracle_c16(case, o):
+    if case.get("kind") == "block-boundary":
+        return _boundary_findings("C16", case, o)
     if case.get("kind") == "general-invalid":
         return []
     if "harness_exception" in o:
@@ -362,6 +415,12 @@ def gen_cases(tier, rng):
             yield {"kind": "mplx", "nc": nc, "w": w, "seed": rng.randrange(10 ** 9)}
     for w in INVALID_UNITARIES:
         yield {"kind": "general-invalid", "what": w}
+    for nc, same, sh in ((2, [0, 2, 3], "id"), (1, [0, 1], "ry"), (2, [1, 2], "ry"), (2, [0, 1, 2, 3], "id"), (3, [0, 3, 5, 6], "ry")):
+        yield {"kind": "mplx-sameobj", "nc": nc, "same": same, "shared": sh}
+    # block encodings at the EDGE of the domain: operators rescaled by their own spectral norm (||H|| = 1 up to rounding)
+    for sd in range(60 if thorough else 24):
+        for meth in ("Wx", "Wxi", "R"):
+            yield {"kind": "block-boundary", "seed": sd, "method": meth, "nsites": 1 + sd % 3}
     for form in ("tuple", "ndarray", "bools", "int8"):
         for cs in ([0], [1], [0, 1], [1, 0], [0, 0, 1]):
             yield {"kind": "ctrl", "cs": cs, "csform": form, "target": rng.choice(["ry", "sgate"]), "seed": rng.randrange(10 ** 9), "theta": rng.uniform(-3, 3)}
